@@ -124,21 +124,17 @@ func (its *WiredDatatype) checkOptionAndError(ppp *model.PushPullPack) errors.Or
 		errOp, ok := operations.ModelToOperation(modelOp).(*operations.ErrorOperation)
 		if ok {
 			switch errOp.GetPushPullError().Code {
-			case errors.PushPullAbortionOfServer:
-				// TODO: implement me.
-			case errors.PushPullAbortionOfClient:
-				// TODO: implement me.
+			case errors.PushPullAbortionOfServer, errors.PushPullAbortionOfClient, errors.PushPullMissingOps:
+				// the push-pull was refused as a whole: nothing is applied, and the next sync sends the same operations again.
+				return errors.ClientSync.New(its.L(), errOp.GetPushPullError().Msg)
 			case errors.PushPullDuplicateKey:
 				return errors.DatatypeCreate.New(its.L(), fmt.Sprintf("duplicated key:'%s'", its.Key))
-			case errors.PushPullMissingOps:
-				// TODO: implement me.
 			case errors.PushPullNoDatatypeToSubscribe:
 				return errors.DatatypeSubscribe.New(its.L(), fmt.Sprintf("%v", errOp.GetPushPullError().Msg))
 			}
-			panic("Not implemented yet")
-		} else {
-			panic("Not implemented yet")
+			return errors.ClientSync.New(its.L(), errOp.GetPushPullError().Msg)
 		}
+		return errors.ClientSync.New(its.L(), "error response without ErrorOperation")
 	} else if ppp.GetPushPullPackOption().HasSubscribeBit() {
 		modelOp := ppp.GetOperations()[0]
 		_, ok := operations.ModelToOperation(modelOp).(*operations.SnapshotOperation)
